@@ -27,8 +27,8 @@ func init() {
 			"enumerated part: 'v1 stored, then one client stores v2' with a fault at EVERY backend operation k of that Store x fault variants (process stop before / after operation k, torn write, I/O error instead of effect, lost acknowledgement, short write) x both cache kinds, followed by recovery (stale-lock cleaning after more than two heartbeat periods for the mutable cache) and a Fetch by another client; " +
 			"random part: 2..4 clients issuing Store / Fetch / CleanEntry concurrently, interleaved at backend-operation granularity by the seeded scheduler, with and without faults; " +
 			"oracles: a successful Fetch installed exactly one complete version whose Store had been invoked; the Store/Fetch history is linearizable as a register (porcupine, failed or crashed Stores may or may not have taken effect); after the last Store that reported success, with nothing in flight, a Fetch returns that version. non-trivial = a fault fired or two operations overlapped; distinct = distinct canonical trace digest",
-		Real: []string{"utils/sharedcache (mutable and immutable repositories, TransferFiles, hash side files)", "utils/filesystem (lock file, zip/unzip, copy/move, temp dirs, hashing)", "utils/parallelisation, utils/hashing, utils/idgen", "avast/retry-go, archive/zip"},
-		Stub: []string{"disk: SimDisk (shared store + local trees)", "time: testing/synctest fake clock", "scheduling at afero.Fs granularity: seeded scheduler", "process stop / I/O error / torn and short writes / lost acknowledgements: fault decisions of the scheduler"},
+		Real:        []string{"utils/sharedcache (mutable and immutable repositories, TransferFiles, hash side files)", "utils/filesystem (lock file, zip/unzip, copy/move, temp dirs, hashing)", "utils/parallelisation, utils/hashing, utils/idgen", "avast/retry-go, archive/zip"},
+		Stub:        []string{"disk: SimDisk (shared store + local trees)", "time: testing/synctest fake clock", "scheduling at afero.Fs granularity: seeded scheduler", "process stop / I/O error / torn and short writes / lost acknowledgements: fault decisions of the scheduler"},
 		Assumptions: []string{"crash model: a client process stops; the shared store keeps every acknowledged operation (the library never calls Sync, no volatile cache is modelled)", "built with go1.26.8 (testing/synctest); go-deadlock detection disabled", "random temp-dir and UUID names are canonicalised by order of appearance in digests; SimDisk lists directories in creation order so behaviour does not depend on them", "porcupine time-outs (30 s) are counted as inconclusive"},
 	})
 }
